@@ -213,8 +213,14 @@ static void job_raw_server(void)
 /* real client handshake in raw mode against a scripted server: capture its DNS login and raw login bytes */
 static void job_raw_client(void)
 {
-	uint32_t seeds[] = { 0, 1, 0xffffffffu, 0x7ffffffeu, 0x80000000u, 0x80000001u, 0x12345678u, 0x7fffffffu };
-	for (unsigned k = 0; k < sizeof seeds / sizeof seeds[0]; k++) {
+	uint32_t seeds[24] = { 0, 1, 0xffffffffu, 0x7ffffffeu, 0x80000000u, 0x80000001u, 0x12345678u, 0x7fffffffu };
+	unsigned nseeds = 8;
+	/* challenges whose documented response (DNS login: challenge, raw login: challenge + 1) has a zero byte at the first, second,
+	 * eighth, last-but-one and last position: a response handled as a C string shows */
+	static const int ZPOS[5] = { 0, 1, 7, 14, 15 };
+	for (int which = 0; which < 2; which++) for (int z = 0; z < 5; z++)
+		for (uint32_t c = 0x1000u + 0x100000u * (uint32_t)(which * 5 + z); ; c++) { unsigned char d[16]; ref_login(pw32, c + which, d); if (d[ZPOS[z]] == 0) { seeds[nseeds++] = c; break; } }
+	for (unsigned k = 0; k < nseeds; k++) {
 		if (xp_fork_wait() != 0) continue;
 		vw_init();
 		W.hooks.on_sanitizer = on_san;
@@ -261,7 +267,7 @@ static void job_raw_client(void)
 		xp_outcome(0x8000 + k);
 		xp_child_exit();
 	}
-	xp_sample("real client handshake (-T NULL, raw mode) against a scripted server for challenges 0,1,ffffffff,7ffffffe,80000000,80000001,12345678,7fffffff");
+	xp_sample("real client handshake (-T NULL, raw mode) against a scripted server for challenges 0,1,ffffffff,7ffffffe,80000000,80000001,12345678,7fffffff and ten challenges whose documented DNS / raw response has a zero byte at position 0, 1, 7, 14, 15 (e.g. 0x%08x)", seeds[8]);
 }
 
 
